@@ -199,18 +199,32 @@ def wrapping(run, repo, thorough):
     limits = [(80, 80), (30, 30), (50, 80), (100, 100), (40, 60)]
     if thorough:
         widths_sets += [[w] * k for w in (7, 15, 26) for k in (3, 9, 20)]
-    for widths, (line_len, max_len) in itertools.product(widths_sets, limits):
+    cases = [(w_, l_, 'list') for w_, l_ in itertools.product(widths_sets, limits)]
+    # the same value handed over as a tuple and as one blank-separated string
+    cases += [(w_, l_, f_) for w_, l_, f_ in itertools.product(
+        ([10, 10, 10], [29, 1, 29, 1, 29, 1, 29], [12, 7, 3, 25, 30, 8, 8, 8, 14, 2, 2, 2, 19, 30, 30, 1, 5], [5]),
+        ((80, 80), (40, 60)), ('tuple', 'string'))]
+    for widths, (line_len, max_len), form in cases:
         I = Interp(repo)
         toks = []
         for k, w in enumerate(widths):
             key = Z + 'tok%d' % k
             I.sym_strings[key] = (w, 'text')
             toks.append(key)
-        out = I.call_function(m, fn, [], {'obj': ListV(list(toks)), 'line_len': C(line_len),
-                                          'max_line_len': C(max_len)})
+        if form == 'string':
+            from ..absstr import SegStr
+            obj = SegStr([])
+            for k, t_ in enumerate(toks):
+                obj = obj + (' ' if k else '') + SegStr.field(t_, widths[k], 'text')
+        else:
+            obj = ListV(list(toks))
+            if form == 'tuple':
+                obj.frozen = True
+        out = I.call_function(m, fn, [], {'obj': obj, 'line_len': C(line_len), 'max_line_len': C(max_len)})
         n += 1
-        label = 'tokens=%s line_len=%d max_line_len=%d' % (widths if len(widths) < 12 else
-                                                          '%d tokens' % len(widths), line_len, max_len)
+        label = 'tokens=%s line_len=%d max_line_len=%d%s' % (widths if len(widths) < 12 else
+                                                            '%d tokens' % len(widths), line_len, max_len,
+                                                            '' if form == 'list' else ' given as ' + form)
         if isinstance(out, Raised):
             run.fail('REF.wrap', 'io.cantera.obj_to_cti', 'raises', '[%s] raises %s' % (label, out.exc), m, fn)
             continue
